@@ -2,6 +2,7 @@ import Mathlib.Algebra.BigOperators.Finprod
 import Mathlib.Algebra.FiniteSupport.Basic
 import EpgVerif.Lemmas.OpsLemmas
 import EpgVerif.Model.Bloch
+import EpgVerif.Lemmas.ExTac
 /-
   C01 — EPG states are the Fourier coefficients of a Bloch isochromat ensemble.
   Property theorems only (helper lemmas that are specific to this file are marked `private`).
@@ -258,5 +259,122 @@ theorem rel_init (θ pd : ℂ) : Rel θ (SM.init pd) ⟨⟨0, 0, pd⟩, pd⟩ :=
     · subst hk; simp [inRange_zero]
     · have : inRange 0 k = false := by simp [inRange]; omega
       simp [hk, this]
+
+/-! ### the isochromat's operations are the classical ones (the specification is physics, not a copy of the code) -/
+section physics
+open EpgVerif.Tie
+
+/-- Cartesian magnetisation vector -/
+structure V3 where
+  x : ℝ
+  y : ℝ
+  z : ℝ
+
+/-- the complex basis used by the phase graph: (M+, M-, Mz) = (Mx + i My, Mx − i My, Mz) -/
+noncomputable def V3.toPS (m : V3) : PS ℂ := ⟨(m.x : ℂ) + I * m.y, (m.x : ℂ) - I * m.y, (m.z : ℂ)⟩
+
+/-- right-handed rotations about the z and x axes (radians) -/
+noncomputable def rotZ (θ : ℝ) (m : V3) : V3 :=
+  ⟨Real.cos θ * m.x - Real.sin θ * m.y, Real.sin θ * m.x + Real.cos θ * m.y, m.z⟩
+noncomputable def rotX (θ : ℝ) (m : V3) : V3 :=
+  ⟨m.x, Real.cos θ * m.y - Real.sin θ * m.z, Real.sin θ * m.y + Real.cos θ * m.z⟩
+
+/-- **an RF pulse `T(α, φ)` is the classical rotation** of the magnetisation by the flip angle α (right-handed) about
+    the axis of azimuth φ in the transverse plane: `Rz(φ) Rx(α) Rz(−φ)` in Cartesian coordinates (degrees) -/
+theorem T_is_cartesian_rotation (α φ : ℝ) (m : V3) :
+    PS.mmul (coeffT (α : ℂ) (φ : ℂ)) m.toPS
+      = (rotZ (Real.pi / 180 * φ) (rotX (Real.pi / 180 * α) (rotZ (-(Real.pi / 180 * φ)) m))).toPS := by
+  have he : ∀ t : ℂ, Complex.exp (I * t) = Complex.cos t + I * Complex.sin t := by
+    intro t; rw [mul_comm, Complex.exp_mul_I]; ring
+  have hen : ∀ t : ℂ, Complex.exp (-(I * t)) = Complex.cos t - I * Complex.sin t := by
+    intro t
+    have := he (-t)
+    simp only [mul_neg, Complex.cos_neg, Complex.sin_neg] at this
+    rw [this]; ring
+  have hI : I ^ 2 = -1 := Complex.I_sq
+  apply PS.ext' <;>
+  · simp only [PS.mmul, coeffT, V3.toPS, rotZ, rotX]
+    ex_unfold
+    simp only [envOf, List.getD_cons_zero, List.getD_cons_succ, neg_mul, mul_neg, neg_neg]
+    push_cast
+    simp only [he, hen, Complex.cos_neg, Complex.sin_neg]
+    have h1 := Complex.sin_sq_add_cos_sq ((Real.pi : ℂ) / 180 * (φ : ℂ))
+    generalize Complex.cos ((Real.pi : ℂ) / 180 * (φ : ℂ)) = cp at *
+    generalize Complex.sin ((Real.pi : ℂ) / 180 * (φ : ℂ)) = sp at *
+    generalize Complex.cos ((Real.pi : ℂ) / 180 * (α : ℂ)) = ca at *
+    generalize Complex.sin ((Real.pi : ℂ) / 180 * (α : ℂ)) = sa at *
+    grind
+
+/-- magnetisation after free evolution over `τ` (the model's / code's `E(τ, T1, T2, g)`) -/
+noncomputable def relaxed (T1 T2 g pd : ℝ) (m : PS ℂ) (τ : ℝ) : PS ℂ :=
+  (blochOp (K := ℂ) 0 (.E (τ : ℂ) (T1 : ℂ) (T2 : ℂ) (g : ℂ)) ⟨m, (pd : ℂ)⟩).m
+
+theorem relaxed_formula (T1 T2 g pd : ℝ) (m : PS ℂ) (τ : ℝ) :
+    relaxed T1 T2 g pd m τ =
+      ⟨Complex.exp ((τ : ℂ) * (-(1 / (T2 : ℂ)) + 2 * Real.pi * I * g)) * m.fp,
+       Complex.exp ((τ : ℂ) * (-(1 / (T2 : ℂ)) - 2 * Real.pi * I * g)) * m.fm,
+       Complex.exp (-((τ : ℂ) / T1)) * m.z + (1 - Complex.exp (-((τ : ℂ) / T1))) * pd⟩ := by
+  have hr : ∀ i, (starRingEnd ℂ) (envOf [(τ : ℂ), (T1 : ℂ), (T2 : ℂ), (g : ℂ)] i) = envOf [(τ : ℂ), (T1 : ℂ), (T2 : ℂ), (g : ℂ)] i := by
+    intro i
+    match i with
+    | 0 => simp [envOf]
+    | 1 => simp [envOf]
+    | 2 => simp [envOf]
+    | 3 => simp [envOf]
+    | (n + 4) => simp [envOf]
+  apply PS.ext'
+  · simp only [relaxed, blochOp, PS.dmul, PS.add_fp]
+    ex_unfold
+    simp only [envOf, List.getD_cons_zero, List.getD_cons_succ, mul_zero, add_zero, ← Complex.exp_conj]
+    push_cast
+    simp only [map_neg, map_mul, map_add, map_div₀, map_one, map_ofNat, Complex.conj_ofReal, Complex.conj_I]
+    congr 2; ring
+  · simp only [relaxed, blochOp, PS.dmul, PS.add_fm]
+    ex_unfold
+    simp only [envOf, List.getD_cons_zero, List.getD_cons_succ, mul_zero, add_zero]
+    push_cast
+    congr 2; ring
+  · simp only [relaxed, blochOp, PS.dmul, PS.add_z]
+    ex_unfold
+    simp only [envOf, List.getD_cons_zero, List.getD_cons_succ]
+
+/-- **free evolution solves the Bloch equations**: transverse decay at rate 1/T2 with precession at the frequency g,
+    longitudinal recovery towards the equilibrium at rate 1/T1; and `τ = 0` is the identity -/
+theorem E_solves_bloch (T1 T2 g pd : ℝ) (m : PS ℂ) (τ : ℝ) :
+    HasDerivAt (fun t : ℝ => (relaxed T1 T2 g pd m t).fp)
+        ((-(1 / (T2 : ℂ)) + 2 * Real.pi * I * g) * (relaxed T1 T2 g pd m τ).fp) τ ∧
+    HasDerivAt (fun t : ℝ => (relaxed T1 T2 g pd m t).fm)
+        ((-(1 / (T2 : ℂ)) - 2 * Real.pi * I * g) * (relaxed T1 T2 g pd m τ).fm) τ ∧
+    HasDerivAt (fun t : ℝ => (relaxed T1 T2 g pd m t).z)
+        (((pd : ℂ) - (relaxed T1 T2 g pd m τ).z) / T1) τ ∧
+    relaxed T1 T2 g pd m 0 = m := by
+  have hexp : ∀ c : ℂ, HasDerivAt (fun t : ℝ => Complex.exp ((t : ℂ) * c)) (c * Complex.exp ((τ : ℂ) * c)) τ := by
+    intro c
+    have h1 : HasDerivAt (fun t : ℝ => (t : ℂ) * c) c τ := by
+      simpa using (Complex.ofRealCLM.hasDerivAt (x := τ)).mul_const c
+    have := (Complex.hasDerivAt_exp ((τ : ℂ) * c)).scomp τ h1
+    exact this.congr_deriv (by rw [smul_eq_mul])
+  simp only [relaxed_formula]
+  refine ⟨?_, ?_, ?_, ?_⟩
+  · have := (hexp (-(1 / (T2 : ℂ)) + 2 * Real.pi * I * g)).mul_const m.fp
+    exact this.congr_deriv (by ring)
+  · have := (hexp (-(1 / (T2 : ℂ)) - 2 * Real.pi * I * g)).mul_const m.fm
+    exact this.congr_deriv (by ring)
+  · by_cases hT : (T1 : ℂ) = 0
+    · -- the model divides by T1 = 0 as Lean does (x / 0 = 0): constant functions
+      simp only [hT, div_zero, neg_zero, Complex.exp_zero, one_mul, sub_self, zero_mul, add_zero]
+      exact hasDerivAt_const τ m.z
+    · have he := hexp (-(1 / (T1 : ℂ)))
+      have e : (fun t : ℝ => Complex.exp (-((t : ℂ) / T1))) = fun t : ℝ => Complex.exp ((t : ℂ) * -(1 / (T1 : ℂ))) := by
+        funext t; congr 1; field_simp
+      have h1 : HasDerivAt (fun t : ℝ => Complex.exp (-((t : ℂ) / T1))) (-(1 / (T1 : ℂ)) * Complex.exp (-((τ : ℂ) / T1))) τ := by
+        rw [e]; refine he.congr_deriv ?_; congr 2; field_simp
+      have := (h1.mul_const m.z).add (((hasDerivAt_const τ (1 : ℂ)).sub h1).mul_const (pd : ℂ))
+      refine this.congr_deriv ?_
+      field_simp
+      ring
+  · apply PS.ext' <;> simp
+
+end physics
 
 end EpgVerif.Props.C01
